@@ -145,7 +145,10 @@ theorem C14_dr6_hit_maps_to_slot (d : Nat) :
 /-- every thread of a system -/
 def Sys.threads (s : Sys) : List Img := s.main :: s.others
 
-/-- **Main invariant.**  After ANY history, in EVERY thread: slot i's local-enable bit is set iff some active
+/-- **Main invariant.**  After ANY history — thread creations in it may be single `clone` steps or the kernel's
+`spawn t` followed, at any later points and in either order, by the notifications `evClone t` / `evStop t`; restarts
+may hit a live or a dead process with any mix of scoped and unscoped watchpoints — in EVERY thread the tracer has
+registered (a thread it has not yet seen is stopped, see the header): slot i's local-enable bit is set iff some active
 watchpoint owns slot i, and then DR_i is its address, RW_i its condition, LEN_i its size (Intel encodings); all
 global-enable bits and GE are clear; LE is set iff there is a watchpoint; every watchpoint owns a slot `< 4`, no
 slot has two owners, and there are at most four watchpoints.  (No stale enable bit: an enable bit without an owner
